@@ -2,7 +2,7 @@
 from checks import actors_common as ac
 
 THEOREMS = ['Poupool.C05.open_time_bounded', 'Poupool.C05.force_empty_cases', 'Poupool.C05.level_set_follows_last_mode', 'Poupool.C05.main_valve_only_in_fill_or_low', 'Poupool.C05.tank_halt_closes_valve', 'Poupool.C05.valve_kept_open_implies_below', 'Poupool.C05.opens_when_below', 'Poupool.C05.closes_when_recovered', 'Poupool.C05.limits', 'Poupool.C05.fill_opens_only_below_too_low', 'Poupool.C08.tank_timers']
-TIMING = ['Poupool.Timing.tank_polls']
+TIMING = ['Poupool.Timing.tank_limit_phases', 'Poupool.Timing.tank_polls']
 MODULE = "Poupool.Properties.C05"
 
 
